@@ -24,7 +24,7 @@ use crate::types::Type;
 use serde::{Deserialize, Serialize};
 
 /// The type pool: 0 Int, 1 Bytes, 2 Array(Int), 3 Array(Bytes),
-/// 4 Array(Array(Int)), 5 Map(Int), 6 Bool.
+/// 4 Array(Array(Int)), 5 Map(Int), 6 Bool, 7 Ip (an IPv4 address made of the leaf's low 32 bits).
 /// (wrong primitive: 0/1/6; right container, wrong element: 2/3; right shape,
 /// wrong depth: 2/4; other container: 2/5.)
 fn ty<const K: usize>() -> Type {
@@ -35,6 +35,7 @@ fn ty<const K: usize>() -> Type {
         3 => Type::Array(Type::Bytes.into()),
         4 => Type::Array(Type::Array(Type::Int.into()).into()),
         5 => Type::Map(Type::Int.into()),
+        7 => Type::Ip,
         _ => Type::Bool,
     }
 }
@@ -77,6 +78,7 @@ fn value<'a, const K: usize>(m: i64, a: &'a L1, b: &'a L2<'a>) -> LhsValue<'a> {
         3 => LhsValue::Array(array_borrowed(Type::Bytes, &b.byte_elems[..])),
         4 => LhsValue::Array(array_borrowed(Type::Array(Type::Int.into()), &b.inner[..])),
         5 => LhsValue::Map(map_empty(Type::Int, m & 1 == 0)),
+        7 => LhsValue::Ip(std::net::IpAddr::V4(std::net::Ipv4Addr::from(m as u32))),
         _ => LhsValue::Bool(m & 1 == 0),
     }
 }
@@ -116,6 +118,7 @@ fn is_value<const K: usize>(v: &LhsValue<'_>, m: i64) -> bool {
             LhsValue::Map(mp) => mp.len() == 0 && map_is_borrowed(mp) == (m & 1 == 0),
             _ => false,
         },
+        7 => matches!(v, LhsValue::Ip(std::net::IpAddr::V4(a)) if u32::from(*a) == m as u32),
         _ => matches!(v, LhsValue::Bool(b) if *b == (m & 1 == 0)),
     }
 }
@@ -273,6 +276,9 @@ set_pairs! {
     // NOT REGISTERED (removed): (Map<Int> field, Map<Int> value) and (Array<Int> field, Map<Int> value): a Map VALUE
     // passed to set_field_value makes CBMC explore the BTreeMap drop / comparison glue - no result in 300 s.  A
     // Map<Int> FIELD holding a map and refusing an Array<Int> value is discharged above.
+    set_field_value__ip_field_ip_value: 7, 7, false;
+    set_field_value__ip_field_int_value: 7, 0, false;
+    set_field_value__int_field_ip_value: 0, 7, false;
     set_field_value__foreign_int_field_int_value: 0, 0, true;
     set_field_value__foreign_int_field_bytes_value: 0, 1, true;
     set_field_value__foreign_array_int_field_array_int_value: 2, 2, true;
